@@ -546,6 +546,28 @@ func cellStores(cell ssa.Value) ([]ssa.Value, bool) {
 	return nil, false
 }
 
+// canonCell: a load of a local variable cell (captured by a closure, hence not lifted to a register)
+// that is stored exactly once denotes the stored value.
+func canonCell(v ssa.Value) ssa.Value {
+	for i := 0; i < 4; i++ {
+		ld, ok := v.(*ssa.UnOp)
+		if !ok || ld.Op != token.MUL {
+			return v
+		}
+		switch ld.X.(type) {
+		case *ssa.Alloc, *ssa.FreeVar:
+		default:
+			return v
+		}
+		vs, ok := cellStores(ld.X)
+		if !ok || len(vs) != 1 {
+			return v
+		}
+		v = vs[0]
+	}
+	return v
+}
+
 // rootField: the field (or pointer parameter, as "*name") a slice value is a view of.
 func rootField(v ssa.Value, depth int) (fv *types.Var, ptrParam string, ok bool) {
 	if depth > 12 {
